@@ -51,8 +51,12 @@ func (s *Script) endCase() {
 		if s.curNT && !s.nontriv[txt] {
 			s.nontriv[txt] = true
 			s.Nontriv++
-			if len(s.Samples) < 3 && len(txt) < 4000 {
-				s.Samples = append(s.Samples, txt)
+			if len(s.Samples) < 3 {
+				lines := strings.SplitN(txt, "\n", 26)
+				if len(lines) > 25 {
+					lines = append(lines[:25], "... (truncated)")
+				}
+				s.Samples = append(s.Samples, strings.Join(lines, "\n"))
 			}
 		}
 	}
